@@ -220,3 +220,18 @@ Definition plumb_case_ok (c : list nat * list nat * list nat * list Z) : bool :=
   let '(shp, axis, ishape, idata) := c in
   let b := plumb Z (-1) axis (mkNd shp (map Z.of_nat (seq 0 (nprod shp)))) in
   list_z_eqb (map Z.of_nat (shape b)) (map Z.of_nat ishape) && list_z_eqb (data b) idata.
+
+(* ---- cohort subset wiring (K2): the layer built by flox.core.subset_to_blocks vs NdTake.subset_sources.
+   (block grid of the array, selected blocks per axis (batch axes: all blocks), flat source block of every output position in C order,
+    announced output block-grid shape) ---- *)
+From Flox Require Import NdTake.
+Fixpoint list_nat_eqb (a b : list nat) : bool :=
+  match a, b with
+  | [], [] => true
+  | x :: a', y :: b' => Nat.eqb x y && list_nat_eqb a' b'
+  | _, _ => false
+  end.
+Definition subset_case_ok (c : list nat * list (list nat) * list nat * list nat) : bool :=
+  let '(blk, sels, isrc, ishape) := c in
+  let m := subset_sources blk sels in
+  list_nat_eqb (data m) isrc && list_nat_eqb (shape m) ishape.
